@@ -911,9 +911,13 @@ func runC02R3(c *Ctx) {
 		if connSend == nil {
 			c.missing("R3", "(*conn).sendPacket")
 		} else {
-			allowed := map[string]bool{"(*clientConn).dispatchRequest": true, "(*Client).sendInit": true, "(*serverConn).sendError": true}
+			// the client's side of the shared conn type is not the packet manager's business: told by whose code it is
+			// (a method of Client / clientConn / File, or the client's constructor), not by a list of names
+			allowed := func(fn *ssa.Function) bool {
+				return isClientSide(fn) || fnName(fn) == "(*serverConn).sendError"
+			}
 			for _, in := range p.callersOfStatic(connSend) {
-				c.check(allowed[fnName(outermost(in.Parent()))], "R3", "caller of conn.sendPacket: "+fnName(in.Parent()), pos(in),
+				c.check(allowed(outermost(in.Parent())), "R3", "caller of conn.sendPacket: "+fnName(in.Parent()), pos(in),
 					"not a server-side bypass of the packet manager", "a server-side function writes a packet directly, bypassing the ordering of the packet manager")
 			}
 			if se := p.Func("(*serverConn).sendError"); se != nil {
